@@ -153,8 +153,18 @@ class Run:
             opts.pop('startcp', None)       # not valid for a restart (restored from the DB)
         schd = Scheduler(self.id, RunOptions(**opts))
         self.schd = schd
+        # additive (C25, off unless the policy sets obs_ds): capture the published data-store deltas, keep a
+        # subscriber store by the real apply_delta, snapshot pool vs store after every data-store update
+        # (observation key 'ds', see dsobs.py)
+        if (self.case.get('policy') or {}).get('obs_ds'):
+            import dsobs
+            if getattr(self, 'dsobs', None) is None:
+                self.dsobs = dsobs.DsObs(self)
+            self.dsobs.pre_start(schd)
         await schd.install()
         await schd.start()
+        if getattr(self, 'dsobs', None) is not None:
+            self.dsobs.post_start(schd)
         schd.INTERVAL_MAIN_LOOP = 0
         schd.INTERVAL_MAIN_LOOP_QUICK = 0
         tjm = schd.task_job_mgr
@@ -195,10 +205,11 @@ class Run:
 
     # -- additive instrumentation for the C07 / C11S / C03 judges (extra observation keys
     #    'adds', 'removed', 'stall_at'; the model does not predict them; behaviour unchanged)
-    def _snap_pool(self):
+    def _snap_pool(self, with_flows=False):
         out = []
         for itask in self.schd.pool.get_tasks():
             out.append({
+                **({'fl': flows_of(itask)} if with_flows else {}),
                 'p': int(itask.point), 'n': itask.tdef.name, 'st': itask.state.status,
                 'held': bool(itask.state.is_held), 'q': bool(itask.state.is_queued),
                 'rh': bool(itask.state.is_runahead), 'sn': itask.submit_num,
@@ -362,12 +373,35 @@ class Run:
         obs['fw'] = sorted([int(t.point), t.tdef.name] for t in schd.pool.get_tasks() if t.flow_wait)
         obs['flows_known'] = sorted(int(f) for f in schd.flow_mgr.flows)
         obs['ts'] = self._observe_ts() if self.stop_reason is None else None
+        # additive (C27): pool snapshots immediately before / after the reload command of this op (and the queued
+        # set after the sweep of the same main loop); for a main loop right after a reload: the queued set after its sweep
+        obs['reload'] = self.__dict__.pop('reload_snaps', None)
+        sw = self.__dict__.pop('swept_snaps', None)
+        obs['reload_swept'] = None if sw is None else sw['swept']
+        # additive (C30 judge): the suicide prerequisites of the pooled proxies that have any, with the way each
+        # atom was satisfied (0 no / 1 naturally / 2 from database / 3 forced): [point, name, [[atom..]..]]
+        _sat = {False: 0, 'satisfied naturally': 1, 'satisfied from database': 2, 'force satisfied': 3}
+        _jkey = lambda a: json.dumps(a, separators=(',', ':'))     # noqa: E731
+        # additive (C05S, queue limits at scheduler level): the pool in get_tasks() order (= queue push order), the
+        # internal queues [name, limit, [[point, name]..]] with each deque listed head first (next to be released
+        # first), and the proxies waiting on job preparation
+        obs['order'] = [[int(t.point), t.tdef.name] for t in schd.pool.get_tasks()]
+        obs['qs'] = [[qn, int(q.limit), [[int(t.point), t.tdef.name] for t in reversed(q.deque)]]
+                     for qn, q in tp.task_queue_mgr.queues.items()]
+        obs['wjp'] = sorted([int(t.point), t.tdef.name] for t in schd.pool.get_tasks() if t.waiting_on_job_prep)
+        obs['xsui'] = sorted((
+            [int(t.point), t.tdef.name, sorted((
+                sorted([int(str(k.point)), k.task, k.output, _sat.get(v, 9)] for k, v in pre.items())
+                for pre in t.state.suicide_prerequisites), key=_jkey)]
+            for t in schd.pool.get_tasks() if t.state.suicide_prerequisites), key=_jkey)
         self.prepped = []
         self.adds, self.removed, self.stall_at = [], [], None
         self.launched = []
         self.polls = []
         self.msgs = []
         self.trans = []
+        if getattr(self, 'dsobs', None) is not None:
+            obs['ds'] = self.dsobs.observe()        # additive (C25, only with policy obs_ds; see dsobs.py)
         return obs
 
     def _observe_ts(self):
@@ -436,15 +470,25 @@ class Run:
     async def apply(self, op):
         schd = self.schd
         kind = op['op']
+        if kind != 'loop':
+            self.__dict__.pop('reload_pending_sweep', None)
         if kind == 'loop':
             # additive (C19 policies 'stops' / 'redeliver'): count main loops; a loop that did not shut
             # down has processed the message queue
             self.loops_done = getattr(self, 'loops_done', 0) + 1
+            pend = self.__dict__.pop('reload_pending_sweep', None)
+            if pend is not None:
+                # additive (C27): the op before was a reload run between main loops: its observation is completed
+                # by the queued set after this loop's sweep (reported under key 'reload_swept' of this op)
+                self.swept_snaps = {'swept': None}
+                self._hook_sweep(self.swept_snaps)
             try:
                 await schd._main_loop()
                 self.unprocessed = []
             except SchedulerStop as exc:
                 self.stop_reason = str(exc.args[0]) if exc.args else 'stop'
+            finally:
+                schd.pool.__dict__.pop('clock_expire_tasks', None)
         elif kind == 'subres':
             itask = schd.pool._get_task_by_id(op['task'])
             if itask is not None:
@@ -521,7 +565,48 @@ class Run:
                             for key in [k for k in self.jobs if k[0] == p and k[1] == n]:
                                 self.jobs.pop(key)
                 return
+            if name == 'remove_tasks':
+                # additive (C30): `cylc remove`.  The matched ids are a Python set: the order in which
+                # _remove_matched_tasks walks them is written back into the op (hint 'rm') for the model
+                orig_rm = commands._remove_matched_tasks
+                order = []
+
+                def _rm(schd_, ids, flow_nums, *a, **k):
+                    ids = list(ids)
+                    order.extend(f"{int(t['cycle'])}/{t['task']}" for t in ids)
+                    return orig_rm(schd_, ids, flow_nums, *a, **k)
+                commands._remove_matched_tasks = _rm
+                try:
+                    await commands.run_cmd(fn(schd, **kwargs))
+                finally:
+                    commands._remove_matched_tasks = orig_rm
+                    op['rm'] = order
+                    # the jobs of proxies removed by the command are killed: nothing more is heard of them
+                    for p, n, _st, _outs, reason in getattr(self, 'removed', []):
+                        if reason == 'request':
+                            for key in [k for k in self.jobs if k[0] == p and k[1] == n]:
+                                self.jobs.pop(key)
+                return
+            if name == 'release':
+                # additive (C05S): the matched ids are a Python set; the order in which the pooled ones are released
+                # (= the order in which they are pushed to their queues) is written back into the op (hint 'order')
+                orig_rel = schd.pool.release_held_active_task
+                order = []
+
+                def _rel(itask, *a, **k):
+                    order.append(f'{int(itask.point)}/{itask.tdef.name}')
+                    return orig_rel(itask, *a, **k)
+                schd.pool.release_held_active_task = _rel
+                try:
+                    await commands.run_cmd(fn(schd, **kwargs))
+                finally:
+                    del schd.pool.release_held_active_task
+                    op['order'] = order
+                return
             await commands.run_cmd(fn(schd, **kwargs))
+        elif kind == 'reload':
+            # additive (C27): `cylc reload` after rewriting flow.cylc with op['flow'] (see Run.reload)
+            await self.reload(op)
         elif kind == 'restart':
             # clean shutdown of the stopped scheduler, then a new Scheduler on the same run directory
             await self.stop_scheduler()
@@ -539,8 +624,98 @@ class Run:
             except Exception:
                 self.db_shutdown = None
             await self.start(restart=True)
+        elif kind == 'window':
+            # additive (C25): what Resolvers.set_graph_window_extent does for the setGraphWindowExtent mutation
+            schd.data_store_mgr.set_graph_window_extent(int(op['n']))
         else:
             raise ValueError(kind)
+
+    async def reload(self, op):
+        """additive (C27): op {'op': 'reload', 'flow': text, 'inloop': bool}.  flow.cylc of the run directory is
+        rewritten with the given text and the real commands.reload_workflow runs - directly (commands.run_cmd,
+        between main loops, like the other 'cmd' ops) or, with 'inloop', queued on the scheduler's command queue
+        and executed by one real main-loop iteration (the way the running scheduler does it).  Written back into
+        the op for the model: 'skipped' (a task is preparing: the command would wait for a submit result that only
+        a later op delivers - nothing is done), 'failed' (the scheduler kept the old configuration: the new text
+        was rejected, or the main loop shut down before it ran the command; the old text is restored on disk),
+        'graph' (the instance graph re-extracted from the reloaded configuration)."""
+        schd = self.schd
+        for key in ('graph', 'failed', 'skipped'):
+            op.pop(key, None)
+        if any(t.state.status == 'preparing' or t.waiting_on_job_prep for t in schd.pool.get_tasks()):
+            op['skipped'] = True
+            return
+        op['skipped'] = False
+        flow_file = Path(_SCRATCH) / 'cylc-run' / self.id / 'flow.cylc'
+        old_text = flow_file.read_text()
+        flow_file.write_text(op['flow'])
+        old_cfg = schd.config
+        # pool snapshots immediately before / after the command (observation key 'reload', for the judge)
+        snaps = {'inloop': bool(op.get('inloop')), 'before': None, 'after': None, 'swept': None}
+        self.reload_snaps = snaps
+
+        def snap():
+            rl = schd.pool.runahead_limit_point
+            return {'pool': self._snap_pool(with_flows=True), 'rl': None if rl is None else int(rl)}
+
+        def no_sleep(*a, **k):
+            raise RuntimeError('verif: reload_workflow entered its wait-for-preparing-tasks loop')
+        orig_sleep = commands.sleep
+        commands.sleep = no_sleep
+        try:
+            if op.get('inloop'):
+                cmd = commands.reload_workflow(schd)
+                await cmd.__anext__()       # validation (as resolvers.Resolvers._mutation_mapper does)
+                schd.command_queue.put(('verif-reload', 'reload_workflow', cmd))
+                self.loops_done = getattr(self, 'loops_done', 0) + 1
+                orig_pcq = schd.process_command_queue
+
+                async def pcq():
+                    if schd.command_queue.qsize() > 0 and snaps['before'] is None:
+                        snaps['before'] = snap()
+                        await orig_pcq()
+                        snaps['after'] = snap()
+                        self._hook_sweep(snaps)
+                    else:
+                        await orig_pcq()
+                schd.process_command_queue = pcq
+                try:
+                    await schd._main_loop()
+                    self.unprocessed = []
+                except SchedulerStop as exc:
+                    self.stop_reason = str(exc.args[0]) if exc.args else 'stop'
+                finally:
+                    del schd.process_command_queue
+                while schd.command_queue.qsize() > 0:       # shut down before the command ran: it is dropped
+                    schd.command_queue.get(False)
+                    schd.command_queue.task_done()
+            else:
+                snaps['before'] = snap()
+                await commands.run_cmd(commands.reload_workflow(schd))
+                snaps['after'] = snap()
+                self.reload_pending_sweep = snaps       # the sweep of the next op, if that is a main loop
+        finally:
+            commands.sleep = orig_sleep
+        op['failed'] = schd.config is old_cfg
+        if op['failed']:
+            flow_file.write_text(old_text)
+        else:
+            self.__dict__.setdefault('graph0', self.graph)      # the result reports the graph the run started with
+            self.graph = extract_graph(schd, self.case, flow_text=op['flow'])
+            op['graph'] = self.graph
+
+    def _hook_sweep(self, snaps):
+        """additive (C27): record which proxies are queued when the queue-if-ready sweep of the current main loop
+        is over (TaskPool.clock_expire_tasks is the first call after it), into snaps['swept']."""
+        pool = self.schd.pool
+        orig = pool.clock_expire_tasks
+
+        def clock_expire_tasks(*a, **k):
+            if snaps['swept'] is None:
+                snaps['swept'] = sorted([int(t.point), t.tdef.name] for t in pool.get_tasks() if t.state.is_queued)
+            pool.__dict__.pop('clock_expire_tasks', None)
+            return orig(*a, **k)
+        pool.clock_expire_tasks = clock_expire_tasks
 
     def poll_result(self, itask, op):
         from cylc.flow.subprocctx import SubProcContext
@@ -705,7 +880,9 @@ class Run:
                                 if t.state.is_queued and not t.state.is_held)
                 if queued:
                     return ['%d/%s' % rng.choice(queued)]
-            pooled = [(int(t.point), t.tdef.name) for t in self.schd.pool.get_tasks()]
+            # (C27, additive: tasks orphaned by a reload - no longer in the graph - are not addressed; without
+            # reloads every pooled task is in the graph)
+            pooled = [(int(t.point), t.tdef.name) for t in self.schd.pool.get_tasks() if t.tdef.name in g['tasks']]
             src = pooled if pooled and rng.random() < 0.6 else insts
             return sorted({f'{p}/{n}' for p, n in rng.sample(src, min(len(src), rng.randint(1, 2)))})
         if kind == 'trigger':
@@ -736,6 +913,36 @@ class Run:
             wait = bool(flow not in (['new'], ['none']) and rng.random() < 0.15)
             return {'op': 'cmd', 'name': 'force_trigger_tasks',
                     'args': {'tasks': sorted(f'{p}/{n}' for p, n in group), 'flow': flow, 'flow_wait': wait}}
+        if kind == 'remove':
+            # additive (C30): `cylc remove` of 1-3 task instances (pooled in any state, finished, or never
+            # spawned), sometimes grown along graph edges (so that a matched task has a matched child), without
+            # --flow (all flows) or with --flow=N.. (numbers of existing flows, now and then an unused one)
+            pooled = [(int(t.point), t.tdef.name) for t in self.schd.pool.get_tasks()]
+            src = pooled if pooled and rng.random() < 0.6 else insts
+            group = set(rng.sample(src, min(len(src), rng.choice([1, 1, 1, 2, 2, 3]))))
+            inst_set = set(insts)
+            for _ in range(rng.choice([0, 0, 1, 1, 2])):
+                p, n = rng.choice(sorted(group))
+                d = g['tasks'][n]['inst'].get(str(p))
+                if d is None:
+                    continue
+                nbrs = [(a[0], a[1]) for pre in d['pre'] for a in pre['atoms']]
+                nbrs += [(c[1], c[0]) for cs in d['children'].values() for c in cs]
+                nbrs = sorted(set(x for x in nbrs if x in inst_set))
+                if nbrs:
+                    group.add(rng.choice(nbrs))
+            tasks = sorted(f'{p}/{n}' for p, n in group)
+            if rng.random() < 0.05:
+                tasks.append(f"{g['fcp'] + 1}/{rng.choice(sorted(g['tasks']))}")     # not an instance: unmatched
+            r = rng.random()
+            if r < 0.45:
+                flow = []
+            elif r < 0.5:
+                flow = ['all']
+            else:
+                top = int(self.schd.flow_mgr.counter) + (1 if rng.random() < 0.15 else 0)
+                flow = sorted({str(rng.randint(1, max(1, top))) for _ in range(rng.choice([1, 1, 2]))})
+            return {'op': 'cmd', 'name': 'remove_tasks', 'args': {'tasks': tasks, 'flow': flow}}
         if kind in ('set_out', 'set_pre'):
             # additive (C29 / C08S): `cylc set` of outputs / prerequisites on ONE task instance (pooled or not,
             # any state) with --flow=default / new / none / N.. and --wait.  One id per command (the code iterates
@@ -790,6 +997,23 @@ class Run:
                     pres.append(f'{q}/{m}:' + rng.choice(['succeeded', 'started', 'failed', 'nope']))
                 args['prerequisites'] = pres
             return {'op': 'cmd', 'name': 'set_prereqs_and_outputs', 'args': args}
+        if kind == 'reload':
+            # additive (C27): reload with one of the case's definitions (unchanged / extended / shrunk / broken).
+            # As the real command first flushes preparing tasks through job submission, the submit results of
+            # preparing tasks are delivered first (one per op); the reload comes once none is preparing.
+            prep = sorted((int(t.point), t.tdef.name, t.submit_num) for t in self.schd.pool.get_tasks()
+                          if t.state.status == 'preparing')
+            for key in prep:
+                job = self.jobs.get(key)
+                if job is not None and job['next'] == 0 and job['plan'] and job['plan'][0][0] == 'subres':
+                    job['next'] = 1
+                    return {'op': 'subres', 'task': f'{key[0]}/{key[1]}', 'ok': job['plan'][0][1], 'sn': key[2]}
+            if prep:
+                return None
+            variants = self.case.get('variants') or [{'tag': 'same', 'flow': self.case['flow']}]
+            v = rng.choice(variants)
+            return {'op': 'reload', 'flow': v['flow'], 'tag': v['tag'],
+                    'inloop': rng.random() < pol.get('p_inloop', 0.5)}
         if kind in ('hold', 'release'):
             return {'op': 'cmd', 'name': kind, 'args': {'tasks': some_ids()}}
         if kind == 'set_hold_point':
@@ -806,6 +1030,9 @@ class Run:
                 return None
             mode = {'stop_clean': 'REQUEST(CLEAN)', 'stop_now': 'REQUEST(NOW)', 'stop_now_now': 'REQUEST(NOW-NOW)'}[kind]
             return {'op': 'cmd', 'name': 'stop', 'args': {'mode': mode}}
+        if kind == 'window':
+            # additive (C25): resize the n-window of the data store (the setGraphWindowExtent mutation of the UI)
+            return {'op': 'window', 'n': rng.choice([0, 1, 2, 2, 3])}
         return None
 
     def plan_job(self, rng, pol, point, name, sn):
@@ -873,7 +1100,8 @@ class Run:
                 step += 1
                 self.ops_done, self.cur_op = ops_out, op      # additive: reported when the scheduler raises
                 await self.apply(op)
-                ob = self.observe(after_loop=(op['op'] == 'loop'))
+                ob = self.observe(after_loop=(op['op'] == 'loop' or (
+                    op['op'] == 'reload' and bool(op.get('inloop')) and not op.get('skipped'))))
                 for point, name, sn in ob['launch']:
                     self.jobs[(point, name, sn)] = {
                         'plan': self.plan_job(rng, pol, point, name, sn), 'next': 0}
@@ -892,7 +1120,7 @@ class Run:
                             break
                     else:
                         idle_loops = 0
-            graph = self.graph
+            graph = getattr(self, 'graph0', self.graph)     # (C27: a reload replaces self.graph)
         finally:
             await self.shutdown()
         return {'id': case['id'], 'ops': ops_out, 'obs': obs, 'graph': graph}
@@ -912,8 +1140,11 @@ class Run:
 # ---------------------------------------------------------------------------
 # instance graph of the loaded configuration, read off the real objects
 
-def extract_graph(schd, case):
+def extract_graph(schd, case, flow_text=None):
     cfg = schd.config
+    # additive (C27, policy 'inst_off'): also the instances at points that are NOT valid for the task (key
+    # 'inst_off'): a reload re-creates pooled proxies at their point whatever the new sequences are
+    inst_off_wanted = bool((case.get('policy') or {}).get('inst_off'))
     icp, fcp = int(cfg.initial_point), int(cfg.final_point)
     start = int(cfg.start_point)
     tokens = schd.tokens
@@ -922,10 +1153,14 @@ def extract_graph(schd, case):
         tdef = cfg.get_taskdef(name)
         comp = None
         inst = {}
+        inst_valid, inst_off = inst, {}
         for p in range(icp, fcp + 1):
             pt = get_point(str(p))
+            inst = inst_valid
             if not tdef.is_valid_point(pt):
-                continue
+                if not inst_off_wanted:
+                    continue
+                inst = inst_off
             saved = tdef.max_future_prereq_offset
             itask = TaskProxy(tokens, tdef, pt, {1})
             tdef.max_future_prereq_offset = saved
@@ -950,6 +1185,10 @@ def extract_graph(schd, case):
                 'sui': [conv(x) for x in itask.state.suicide_prerequisites],
                 'children': {out: sorted([c.name, int(c.point), bool(c.is_abs)] for c in cs)
                              for out, cs in itask.graph_children.items()},
+                # additive (C05S): the same lists in their real iteration order (the order in which
+                # spawn_on_output adds the children to the pool, hence the queue push order)
+                'children_ord': {out: [[c.name, int(c.point), bool(c.is_abs)] for c in cs]
+                                 for out, cs in itask.graph_children.items()},
                 'next_parentless': None if nxt is None else int(nxt),
                 # additive (C01 judge): whether the instance is parentless (TaskDef.is_parentless); the model
                 # does not read it
@@ -977,6 +1216,7 @@ def extract_graph(schd, case):
                 req_msgs = sorted(itask.state.outputs.iter_required_messages())
                 skip_msgs = sorted(_skip_outputs(itask))
         fp = tdef.next_point_parentless(cfg.start_point)
+        inst = inst_valid
         tasks[name] = {
             'inst': inst,
             'first_parentless': None if fp is None else int(fp),
@@ -989,6 +1229,10 @@ def extract_graph(schd, case):
             'required': req_msgs if inst else [],
             'skip_out': skip_msgs if inst else [],
         }
+        if inst_off_wanted:
+            tasks[name]['inst_off'] = inst_off
+            if not inst:
+                tasks[name]['outputs'] = outs if inst_off else []
     seqs = []
     for seq in cfg.sequences:
         seqs.append([p for p in range(icp, fcp + 1) if seq.is_valid(get_point(str(p)))])
@@ -998,7 +1242,19 @@ def extract_graph(schd, case):
         'tasks': tasks, 'order': list(schd.pool.task_name_list), 'seqs': seqs,
         'stop_point': None if schd.pool.stop_point is None else int(schd.pool.stop_point),
         'cfg_stop': None if cfg.stop_point is None else int(cfg.stop_point),
+        # additive (C27): `stop after cycle point` as written in the flow.cylc text (cfg.stop_point is overridden
+        # by the --stopcp option / the database value); null if absent or beyond the final point
+        'cfg_stop_file': _stop_in_file(flow_text if flow_text is not None else case.get('flow'), fcp),
+        # additive (C05S): the internal queues as built by IndepQueueManager (dict order): [name, limit, members]
+        'queues': [[qn, int(q.limit), sorted(q.members)] for qn, q in schd.pool.task_queue_mgr.queues.items()],
     }
+
+
+def _stop_in_file(text, fcp):
+    m = re.search(r'^[ \t]*stop after cycle point[ \t]*=[ \t]*(\d+)[ \t]*$', text or '', re.M)
+    if not m or int(m.group(1)) > fcp:
+        return None
+    return int(m.group(1))
 
 
 async def run_case(case):
